@@ -988,6 +988,10 @@ func (e *Engine) timeStampFilterTarFile(start, end time.Time) func(f os.FileInfo
 				return err
 			}
 
+			// The filtered copy is in the archive. A file whose range equals
+			// the window exactly also passes the "100% inside" test below and
+			// must not be written a second time under the same name.
+			return r.Close()
 		}
 
 		// above is the only case where we need to keep the reader open.
